@@ -151,26 +151,26 @@ type evRec struct {
 }
 
 type caseRun struct {
-	e        *env
-	n        *cl.Node
-	sub      *event.Subscription
-	r        *Rng
-	spec     CaseSpec
-	univ     []*txInfo
-	byID     map[bc.Hash]*txInfo
-	outLabel map[bc.Hash]int
-	creators map[int]int // output label -> number of universe transactions creating it
-	blocks   []*blockInfo
-	byHash   map[bc.Hash]*blockInfo
-	best     *blockInfo
-	subm     map[int]bool
-	stream   []evRec // all notifications so far
-	open     map[int]int
-	counts   map[string]int
-	fails    []Fail
-	failed   map[string]bool
-	iops     []string
-	obs      []string
+	e          *env
+	n          *cl.Node
+	sub        *event.Subscription
+	r          *Rng
+	spec       CaseSpec
+	univ       []*txInfo
+	byID       map[bc.Hash]*txInfo
+	outLabel   map[bc.Hash]int
+	creators   map[int]int // output label -> number of universe transactions creating it
+	blocks     []*blockInfo
+	byHash     map[bc.Hash]*blockInfo
+	best       *blockInfo
+	subm       map[int]bool
+	stream     []evRec // all notifications so far
+	open       map[int]int
+	counts     map[string]int
+	fails      []Fail
+	failed     map[string]bool
+	iops       []string
+	obs        []string
 	sawRestore bool
 	sawRemove  bool
 	sawReorg   bool
@@ -503,12 +503,6 @@ func (c *caseRun) observe(step int) (*observation, error) {
 			}
 		}
 	}
-	// a pooled transaction must have an addition that no removal used (otherwise its removal could not be paired)
-	for h := range pooled {
-		if c.open[c.txLabel(h)] == 0 {
-			c.fail(step, "pooled-without-new", fmt.Sprintf("transaction %d is pooled after step %d but every MsgNewTx for it is already matched by a MsgRemoveTx", c.txLabel(h), step))
-		}
-	}
 	return o, nil
 }
 
@@ -525,7 +519,13 @@ func (c *caseRun) record(iop string, o *observation) {
 	evs := append([]evRec{}, o.events...)
 	sort.SliceStable(evs, func(i, j int) bool { return evs[i].Label < evs[j].Label })
 	var es []string
-	for _, e := range evs {
+	for i, e := range evs {
+		// an orphan can be added twice in a row (it is in processOrphans' work list once per output of the
+		// new transaction it spends; how often depends on Go's map order): repetitions of a New are collapsed
+		if e.Kind == 0 && i+1 < len(evs) && evs[i+1] == e {
+			c.counts["event:new-posted-twice"]++
+			continue
+		}
 		es = append(es, fmt.Sprintf("(%d, %d)", e.Kind, e.Label))
 	}
 	c.iops = append(c.iops, iop)
